@@ -16,7 +16,7 @@ import (
 func init() {
 	register("C07", PropCheck{
 		Title:      "A persisted session resumes exactly where an uninterrupted one would be",
-		Explain:    "Equivalence of the two serving modes needs that nothing outside the persisted snapshot carries information across a request boundary; that is decided as an effect question: (R1) every field of state.State and cache.Cache that is read by a function reachable (CHA) from Exec/Flush/Finish/Reset is exported and not excluded from the CBOR snapshot (nested struct types included), except for a frozen table of fields each with a checked side condition (input: overwritten by Exec before the VM runs; invalid markers: only consulted by the persister); (R2) the unpersisted renderer objects hanging off the VM (vm.Vm, render.Page, render.Menu, render.Sizer): every field is classified automatically as configuration (no writer reachable from Vm.Run/Vm.Render), configuration-carried (every stored value derives from configuration), link (pointer to another renderer object) or request state, and every request-state field that some function reachable from Run/Render reads is must-written with a constant / zero / freshly made / configuration-derived value on every path through the resume block of Vm.Run (the region behind the 'WAIT was set' edge), by a forward must-analysis with callee summaries, fresh-object and nil-guard rules; (R4) Serialize/Deserialize use the same codec on the same object and Save/Load the same data type and key.",
+		Explain:    "Equivalence of the two serving modes needs that nothing outside the persisted snapshot carries information across a request boundary; that is decided as an effect question: (R1) every field of state.State and cache.Cache that is read by a function reachable (CHA) from Exec/Flush/Finish/Reset is exported and not excluded from the CBOR snapshot (nested struct types included), except for a frozen table of fields each with a checked side condition (input: overwritten by Exec before the VM runs; invalid markers: only consulted by the persister); (R2) the unpersisted renderer objects hanging off the VM (vm.Vm, render.Page, render.Menu, render.Sizer): every field is classified automatically as configuration (no writer reachable from Vm.Run/Vm.Render), configuration-carried (every stored value derives from configuration), link (pointer to another renderer object) or request state, and every request-state field that some function reachable from Run/Render reads is must-written with a constant / zero / freshly made / configuration-derived value on every path through the resume block of Vm.Run (the region behind the 'WAIT was set' edge), by a forward must-analysis with callee summaries, fresh-object and nil-guard rules; (R4) Serialize/Deserialize use the same codec on the same object and Save/Load the same data type and key; (R6) what the unpersisted engine object sees does not depend on its age: the language is injected into the VM/renderer context only after the (possibly persisted) state has been established (C18 R2, shared), and the output-pending mark FLAG_DIRTY is raised with a constant only by Vm.Run (added after seeded changes C07-E and C07-F) R1 also requires that no live field is tagged omitempty (a zero value must overwrite what a reused object holds; added after seeded change C04-F); (R7) a refused State.Restart changes nothing - none of its writes (direct or through State methods) can be followed by one of its error returns (added after seeded change C07-G, which cleared the reserved flag byte before the refusal test).",
 		NotDecided: "equality of outputs for all programs (needs R1, R2 and determinism of external code); fidelity of the cbor library; back-end specific behaviour (C10); DefaultEngine's own scratch flags (execd/exit/exiting are reset by prepare(); the implicit flush there is not analysed).",
 		Assume:     []string{"methods named String produce diagnostics only (their reads do not count as live reads)", "one Page, Menu and Sizer per VM (field-based abstraction)"},
 		Run:        runC07,
@@ -34,6 +34,8 @@ func runC07(w *core.World, r *core.Report) {
 	r.Rule("R1", "live fields of State/Cache are in the CBOR snapshot (exported, not tagged out), or in the checked exception table")
 	r.Rule("R2", "request-state fields of Vm/Page/Menu/Sizer read on the run/render path are re-initialised on every path through the resume block")
 	r.Rule("R4", "Serialize/Deserialize and Save/Load are symmetric")
+	r.Rule("R7", "a refused State.Restart changes nothing: no store of Restart can be followed by one of its error returns")
+	r.Rule("R6", "per-request and long-lived engines agree on what the unpersisted engine sees: language injected after the state is loaded (C18 R2); the output-pending mark DIRTY is raised only by Vm.Run")
 	r.Rule("R5", "constructing the VM and renderer (once per engine, i.e. per request in persisted operation) has no effect on persisted State/Cache")
 
 	eng := []*ssa.Function{}
@@ -74,6 +76,12 @@ func runC07(w *core.World, r *core.Report) {
 			cborTag := tag.Get("cbor")
 			excluded := !f.Exported() || cborTag == "-" || strings.HasPrefix(cborTag, "-,")
 			if !excluded {
+				// written unconditionally: an omitted zero value does not overwrite what the object
+				// being decoded into already holds (Load decodes into the persister's existing objects)
+				if omitEmptyTag(cborTag) && len(rd) > 0 {
+					r.Bad("R1", key, f.Pos(), "persisted field is tagged omitempty: a zero value (page index 0, empty stack, no language) is left out of the snapshot and a Load into an object that was used before keeps the stale value")
+					continue
+				}
 				// nested struct types must be fully exported as well
 				if bad := unexportedNested(f.Type(), 0); bad != "" && len(rd) > 0 {
 					r.Bad("R1", key, f.Pos(), "persisted field has a nested unexported component ("+bad+") that the snapshot drops")
@@ -177,6 +185,59 @@ func runC07(w *core.World, r *core.Report) {
 		}
 		ok := ok1 && ok2 && ps == pl && keyOK(sv, "db.Db.Put", 2) && keyOK(ld, "db.Db.Get", 2)
 		r.Check(ok, "R4", "persist.(*Persister).Save/Load", sv.Pos(), fmt.Sprintf("same data type %d and the caller's key", ps), "Save and Load do not use the same data type prefix and key")
+	}
+	// ---- R6 -----------------------------------------------------------------------------------
+	checkLanguageInjection(w, r, "R6")
+	checkDirtySetters(w, r, "R6")
+	// ---- R7 -----------------------------------------------------------------------------------
+	if rs := anchor(w, r, "state", "(*State).Restart"); rs != nil {
+		bad := ""
+		var badPos token.Pos
+		isErrRet := func(in ssa.Instruction) bool {
+			ret, ok := in.(*ssa.Return)
+			return ok && isErrorReturn(ret)
+		}
+		check := func(fn *ssa.Function, from ssa.Instruction) {}
+		_ = check
+		for _, in := range allInstrs(rs) {
+			eff := false
+			switch t := in.(type) {
+			case *ssa.Store:
+				if _, _, ok := core.FieldOfAddr(t.Addr); ok {
+					eff = true
+				}
+				if ia, ok := t.Addr.(*ssa.IndexAddr); ok {
+					if _, _, ok := core.LoadedField(ia.X); ok {
+						eff = true
+					}
+				}
+			case ssa.CallInstruction:
+				if g := core.StaticCallee(t); g != nil && core.PkgOf(g) == "state" && g.Signature.Recv() != nil {
+					// a method of State that stores to its fields
+					for _, x := range allInstrs(g) {
+						if st, ok := x.(*ssa.Store); ok {
+							if _, _, ok := core.FieldOfAddr(st.Addr); ok {
+								eff = true
+							}
+							if ia, ok := st.Addr.(*ssa.IndexAddr); ok {
+								if _, _, ok := core.LoadedField(ia.X); ok {
+									eff = true
+								}
+							}
+						}
+					}
+				}
+			}
+			if !eff {
+				continue
+			}
+			if hit, _ := core.Reach(core.After(in), isErrRet, nil); hit != nil {
+				bad = fmt.Sprintf("the write at %s can be followed by the error return at %s", w.Pos(in.Pos()), w.Pos(hit.Pos()))
+				badPos = in.Pos()
+			}
+		}
+		r.Check(bad == "", "R7", "state.(*State).Restart: a refusal leaves the state untouched", badPos, "every write lies behind the refusal test",
+			"Restart changes the state (reserved flags, input, page index) although it then refuses: the engine's reset ignores the refusal, WAIT is gone and a long-lived engine skips the resume block that a per-request engine does not need: "+bad)
 	}
 }
 
@@ -853,4 +914,40 @@ func checkResumeReset(w *core.World, r *core.Report) {
 		}
 	}
 	r.Floor("R2", "request-state fields", nstate, 10)
+}
+
+// checkDirtySetters: the output-pending mark FLAG_DIRTY is raised (with a constant index) only by
+// Vm.Run, the function that executes instructions. The engine field that remembers "something was
+// executed and not yet flushed" is not persisted, so a DIRTY raised anywhere else (for instance by
+// a failed render) makes a long-lived engine re-render before the next request while a per-request
+// engine carries on.
+func checkDirtySetters(w *core.World, r *core.Report, rule string) {
+	fDirty, ok := constOf(w, r, "state", "FLAG_DIRTY")
+	if !ok {
+		return
+	}
+	run := w.Func("vm", "(*Vm).Run")
+	n, bad := 0, ""
+	var badPos token.Pos
+	for _, fn := range w.LibFuncs {
+		for _, c := range flagConstCalls(fn, fDirty, stSetFlag) {
+			n++
+			if fn != run {
+				bad = fmt.Sprintf("%s sets FLAG_DIRTY at %s", core.QName(fn), w.Pos(c.Pos()))
+				badPos = c.Pos()
+			}
+		}
+	}
+	r.Check(bad == "" && n > 0 && run != nil, rule, "FLAG_DIRTY is raised only by Vm.Run", badPos, fmt.Sprintf("%d constant set(s), all in Vm.Run", n),
+		"the output-pending mark is raised outside instruction execution: a long-lived engine (which remembers unflushed execution in an unpersisted field) and a per-request engine then behave differently: "+bad)
+}
+
+// omitEmptyTag: the cbor struct tag asks for zero values to be left out.
+func omitEmptyTag(tag string) bool {
+	for i, p := range strings.Split(tag, ",") {
+		if i > 0 && (p == "omitempty" || p == "omitzero") {
+			return true
+		}
+	}
+	return false
 }
